@@ -230,6 +230,35 @@ func runC17(c *core.Ctx) {
 			}
 		}
 	}
+	// ---- operation root types handed over by AddTypes after the SDL load (the undeclared schema was made up without them)
+	for bi, b := range bases {
+		if len(b.Blocks) > 0 || b.Def("Mutation") != nil || b.Def("Subscription") != nil || b.Def("Query") == nil || len(b.WellFormed()) > 0 {
+			continue
+		}
+		if !c.Owns("addtypes-roots|" + b.SDL()) {
+			continue
+		}
+		v := b.Clone()
+		v.Defs = append(v.Defs, &sgen.Def{Kind: sgen.KObject, Name: "Mutation", Fields: []*sgen.Field{{Name: "am", Type: sgen.N("Int")}}},
+			&sgen.Def{Kind: sgen.KObject, Name: "Subscription", Fields: []*sgen.Field{{Name: "as", Type: sgen.N("Int")}}})
+		for _, st := range strats {
+			root, err := c17Root(st, b.SDL())
+			if err != nil {
+				break
+			}
+			desc := fmt.Sprintf("S%d, then Mutation and Subscription by AddTypes", bi)
+			c17Inspect(c, root, b, desc+" [before]", b.SDL(), st, true)
+			obj := func(name, field string) *ggql.Object {
+				o := &ggql.Object{Base: ggql.Base{N: name}}
+				_ = o.AddField(&ggql.FieldDef{Base: ggql.Base{N: field}, Type: &ggql.Ref{Base: ggql.Base{N: "Int"}}})
+				return o
+			}
+			if err := root.AddTypes(obj("Mutation", "am"), obj("Subscription", "as")); err != nil {
+				panic(core.EngineError{Msg: "C17: AddTypes of root types refused: " + err.Error()})
+			}
+			c17Inspect(c, root, v, desc+" [after]", v.SDL(), st, true)
+		}
+	}
 	c.R.Bound = fmt.Sprintf("%d schemas x 3 strategies x (3 __schema modes + 2 x every type name); %d growth histories (base, refused load, later load, refused load) x 3 strategies, each step inspected in full", len(subjects), nHist)
 	if !completed {
 		c.Cap("deadline reached")
